@@ -99,7 +99,7 @@ var pureMethods = map[string]bool{
 	"(time.Time).Nanosecond": true, "(time.Time).UnixMicro": true,
 	"(reflect.Value).Len": true, "(reflect.Value).NumField": true, "(reflect.Value).Kind": true,
 	"(reflect.Value).Int": true, "(reflect.Value).Uint": true,
-	"(reflect.Type).NumField": true, "(reflect.Type).Kind": true, "(reflect.Type).Name": true,
+	"(reflect.Type).NumField": true, "(reflect.Type).Kind": true, "(reflect.Type).Name": true, "(hessian.CodecNamable).HessianCodecName": true,
 }
 
 func typeRange(w *World, t types.Type) (ISet, bool) {
@@ -402,6 +402,16 @@ func (f *Flow) evalStruct(t *Term, env Env, fl *evalFlags) ISet {
 		if ex, ok := t.V.(*ssa.Extract); ok {
 			if c, ok := ex.Tuple.(*ssa.Call); ok {
 				if sc := c.Call.StaticCallee(); sc != nil && f.w.inPkg(sc) {
+					// where the call's error is known to be nil, only the
+					// value-returning returns of the callee count
+					if ei := errIndex(sc.Signature); ei >= 0 && ei != ex.Index {
+						ek := fmt.Sprintf("(<x#%d%s> != nil:error)", ei, f.term(c).key)
+						if s, has := env[ek]; has && s.Equal(single(0)) {
+							if r := f.w.retRangeOK(sc, ex.Index); r != nil {
+								return r
+							}
+						}
+					}
 					if r := f.w.retRange(sc, ex.Index); r != nil {
 						return r
 					}
@@ -1061,6 +1071,53 @@ func (w *World) retRange(fn *ssa.Function, idx int) ISet {
 		ret, ok := b.Instrs[len(b.Instrs)-1].(*ssa.Return)
 		if !ok || !f.Reachable(b) {
 			continue
+		}
+		s, _ := f.ValueAt(ret.Results[idx], b)
+		if s == nil {
+			return nil
+		}
+		acc = acc.Union(s)
+	}
+	w.rets[key] = acc
+	return acc
+}
+
+// retRangeOK: like retRange but only over returns whose error result is nil.
+func (w *World) retRangeOK(fn *ssa.Function, idx int) ISet {
+	key := retKey{fn, idx + 1000}
+	if r, ok := w.rets[key]; ok {
+		return r
+	}
+	if w.rets == nil {
+		w.rets = map[retKey]ISet{}
+	}
+	w.rets[key] = nil
+	ei := errIndex(fn.Signature)
+	if fn.Blocks == nil || ei < 0 {
+		return nil
+	}
+	if _, _, ok := intTypeInfo(w, fn.Signature.Results().At(idx).Type()); !ok {
+		return nil
+	}
+	f := w.flow(fn)
+	var acc ISet
+	for _, b := range fn.Blocks {
+		ret, ok := b.Instrs[len(b.Instrs)-1].(*ssa.Return)
+		if !ok || !f.Reachable(b) {
+			continue
+		}
+		if !isNilConst(ret.Results[ei]) {
+			// a forwarded callee error may be nil: only provably non-nil errors are excluded
+			if w.nonNilErr(ret.Results[ei], nil, nil, 0) {
+				continue
+			}
+			// "return v, err" right after "if err != nil": the error operand is the tested value
+			if te := f.At(b); te != nil {
+				k := "(" + f.term(ret.Results[ei]).key + " != nil:error)"
+				if s, has := te[k]; has && s.Equal(single(1)) {
+					continue
+				}
+			}
 		}
 		s, _ := f.ValueAt(ret.Results[idx], b)
 		if s == nil {
